@@ -11,7 +11,13 @@
 (*    field with real values that include None and the other falsy values   *)
 (*    (None|0.5, 0|"", False|None), all legitimate field values; the law    *)
 (*    "update returns a namespace holding exactly the given assignment"     *)
-(*    (ApplyKw) does not depend on what the values are.                     *)
+(*    (ApplyKw) does not depend on what the values are.  A third abstract   *)
+(*    value, UVal = 2, is an UNHASHABLE real value (list / dict): a value   *)
+(*    like any other for every operator here; only Hashable() tells it      *)
+(*    apart (the hash laws range over hashable objects).                    *)
+(*  * a set HOLDS namespace objects: a request carries identity tokens of   *)
+(*    what was given, Hold(t, r) names per class the object the result must *)
+(*    hold (see ReqI / Hold).                                               *)
 (*  * objects are immutable records                                         *)
 (*       [k |-> "ns", c |-> class, v |-> <<field values>>]                  *)
 (*       [k |-> "ra", c |-> class, v |-> <<per class 1..N: values | <<>> >>]*)
@@ -46,6 +52,9 @@ IsSub(t, c, d) == d \in Anc(t, c)              \* c is d or a descendant of d
 Related(t, c, d) == IsSub(t, c, d) \/ IsSub(t, d, c)
 AMRO(t, c) == Anc(t, c) \cap t.has              \* classes with arguments in c's MRO
 
+\* (NsNew with b = 2, recorded histories only: the binding builds the namespace from real values
+\* of ANOTHER TYPE that are == to the usual ones - 0 / False, 0.5 / Fraction(1, 2) -: one more
+\* way of being equal but distinct; like s it is no part of the value.)
 \* s = 1: the namespace is an instance of a SUBCLASS of the class's namespace class (the
 \* docs' "Inheriting Fields": same fields, same associated render class).  s is an
 \* instruction to the binding (which class to instantiate), never part of the VALUE: Eq,
@@ -73,7 +82,15 @@ ApplyKw(vals, kw) ==
 (* A construction request, in the documentation's terms:                     *)
 (*   [cls, init (a "ra" record or Nil), nss (sequence of "ns" records)]      *)
 (* ------------------------------------------------------------------------ *)
-Req(cls, init, nss) == [cls |-> cls, init |-> init, nss |-> nss]
+(* IDENTITY (round 7).  "holds the last namespace GIVEN for it, else the initial set's":   *)
+(* a set holds namespace OBJECTS.  A request therefore also carries the identity token of  *)
+(* every namespace given (ids[i]: heap id > 0, or extraction reference < 0, or 0 = an      *)
+(* object created inside the operation, identity not constrained) and of the initial set   *)
+(* (iid, 0 = none).  Hold(t, r)[k] is the token of the object the result must hold for     *)
+(* class k: the operand given last for k, else Ref(iid, k) = the very object the initial   *)
+(* set holds for k, else 0 (a default: which default-valued object is not constrained).    *)
+ReqI(cls, init, nss, iid, ids) == [cls |-> cls, init |-> init, nss |-> nss, iid |-> iid, ids |-> ids]
+Req(cls, init, nss) == ReqI(cls, init, nss, 0, [i \in 1..Len(nss) |-> 0])
 
 InitOK(t, r) == r.init = Nil \/ IsSub(t, r.cls, r.init.c)
 NssOK(t, r) == \A i \in 1..Len(r.nss) : IsSub(t, r.cls, r.nss[i].c)
@@ -92,6 +109,13 @@ Value(t, r) ==
      ELSE IF r.init # Nil /\ k \in AMRO(t, r.init.c) THEN r.init.v[k]
      ELSE DefVals(k)]
 
+Hold(t, r) ==
+  [k \in 1..NCls(t) |->
+     IF k \notin AMRO(t, r.cls) THEN 0
+     ELSE IF LastFor(r, k) # 0 THEN r.ids[LastFor(r, k)]
+     ELSE IF r.init # Nil /\ r.iid # 0 /\ k \in AMRO(t, r.init.c) THEN 0 - (16 * r.iid + k)
+     ELSE 0]
+
 \* operational reading, used only by the FoldAgrees invariant
 RECURSIVE FoldNs(_, _)
 FoldNs(m, nss) ==
@@ -106,12 +130,13 @@ Fold(t, r) ==
 (* ------------------------------------------------------------------------ *)
 (* Expected outcome of one operation                                          *)
 (* ------------------------------------------------------------------------ *)
-Acc(rec, req) == [rej |-> {}, rec |-> rec, req |-> req]
-Rej(S) == [rej |-> S, rec |-> Nil, req |-> Req(0, Nil, <<>>)]
 NoReq == Req(0, Nil, <<>>)
+AccH(rec, req, hold) == [rej |-> {}, rec |-> rec, req |-> req, hold |-> hold]
+Acc(rec, req) == AccH(rec, req, <<>>)          \* a namespace result: holds nothing
+Rej(S) == [rej |-> S, rec |-> Nil, req |-> NoReq, hold |-> <<>>]
 
 Construct(t, r) ==
-  IF Accepts(t, r) THEN Acc(RaRec(r.cls, Value(t, r)), r) ELSE Rej(RejectSet(t, r))
+  IF Accepts(t, r) THEN AccH(RaRec(r.cls, Value(t, r)), r, Hold(t, r)) ELSE Rej(RejectSet(t, r))
 
 \* render_args[cls]
 GetItem(t, ra, c) ==
@@ -139,15 +164,22 @@ CompatFrom(t, ra, cls, k) ==
   ELSE (IF k \in AMRO(t, ra.c) /\ k \in AMRO(t, cls) THEN <<NsRec(k, ra.v[k])>> ELSE <<>>)
        \o CompatFrom(t, ra, cls, k + 1)
 
-OrReq(t, self, other, selfWinsTie) ==
-  \* self is a namespace; other a namespace or a set
+\* ... and their identity tokens: the objects the set holds
+RECURSIVE CompatIds(_, _, _, _, _)
+CompatIds(t, ra, a, cls, k) ==
+  IF k > NCls(t) THEN <<>>
+  ELSE (IF k \in AMRO(t, ra.c) /\ k \in AMRO(t, cls) THEN <<0 - (16 * a + k)>> ELSE <<>>)
+       \o CompatIds(t, ra, a, cls, k + 1)
+
+OrReq(t, self, other, selfWinsTie, a, b) ==
+  \* self is a namespace; other a namespace or a set; a, b their identity tokens
   IF other.k = "ns"
   THEN IF ~Related(t, self.c, other.c) THEN Rej({"IncompatibleArgsNamespaceError"})
-       ELSE Construct(t, Req(MostDerived(t, self.c, other.c), Nil,
-                             IF self.c = other.c /\ selfWinsTie THEN <<other, self>>
-                             ELSE <<self, other>>))
+       ELSE IF self.c = other.c /\ selfWinsTie
+            THEN Construct(t, ReqI(self.c, Nil, <<other, self>>, 0, <<b, a>>))
+            ELSE Construct(t, ReqI(MostDerived(t, self.c, other.c), Nil, <<self, other>>, 0, <<a, b>>))
   ELSE IF ~Related(t, self.c, other.c) THEN Rej({"IncompatibleRenderArgsError"})
-       ELSE Construct(t, Req(MostDerived(t, self.c, other.c), other, <<self>>))
+       ELSE Construct(t, ReqI(MostDerived(t, self.c, other.c), other, <<self>>, b, <<a>>))
 
 Expected(t, h, op) ==
   CASE op.op = "NsNew" ->
@@ -157,28 +189,30 @@ Expected(t, h, op) ==
          IF KwUnknown(At(h, op.a).c, op.kw) THEN Rej({"UnknownArgsFieldError"})
          ELSE Acc(NsRecS(At(h, op.a).c, ApplyKw(At(h, op.a).v, op.kw), At(h, op.a).s), NoReq)
     [] op.op = "New" ->
-         Construct(t, Req(op.cls, IF op.a = 0 THEN Nil ELSE h[op.a], RecsOf(h, op.nss)))
+         Construct(t, ReqI(op.cls, IF op.a = 0 THEN Nil ELSE h[op.a], RecsOf(h, op.nss), op.a, op.nss))
     [] op.op = "UpdateNs" ->
-         Construct(t, Req(h[op.a].c, h[op.a], RecsOf(h, op.nss)))
+         Construct(t, ReqI(h[op.a].c, h[op.a], RecsOf(h, op.nss), op.a, op.nss))
     [] op.op = "Update" ->
          LET ra == h[op.a]
              g == GetItem(t, ra, op.cls)
              unk == op.cls \in t.has /\ KwUnknown(op.cls, op.kw)
          IN IF g # "ok" THEN Rej({g} \cup (IF unk THEN {"UnknownArgsFieldError"} ELSE {}))
             ELSE IF unk THEN Rej({"UnknownArgsFieldError"})
-            ELSE Construct(t, Req(ra.c, ra, <<NsRec(op.cls, ApplyKw(ra.v[op.cls], op.kw))>>))
+            ELSE Construct(t, ReqI(ra.c, ra, <<NsRec(op.cls, ApplyKw(ra.v[op.cls], op.kw))>>, op.a, <<0>>))
     [] op.op = "Convert" ->
          LET ra == h[op.a] IN
-         IF op.cls = ra.c THEN Acc(ra, NoReq)
-         ELSE IF IsSub(t, op.cls, ra.c) THEN Construct(t, Req(op.cls, ra, <<>>))
+         IF op.cls = ra.c THEN AccH(ra, NoReq, Hold(t, ReqI(ra.c, ra, <<>>, op.a, <<>>)))
+         ELSE IF IsSub(t, op.cls, ra.c) THEN Construct(t, ReqI(op.cls, ra, <<>>, op.a, <<>>))
          ELSE IF IsSub(t, ra.c, op.cls)
-              THEN Construct(t, Req(op.cls, Nil, CompatFrom(t, ra, op.cls, 1)))
+              THEN Construct(t, ReqI(op.cls, Nil, CompatFrom(t, ra, op.cls, 1), 0,
+                                     CompatIds(t, ra, op.a, op.cls, 1)))
          ELSE Rej({"ValueError"})
-    [] op.op = "Or" -> OrReq(t, At(h, op.a), At(h, op.b), FALSE)
-    [] op.op = "Ror" -> OrReq(t, At(h, op.a), At(h, op.b), TRUE)
-    [] op.op = "Pos" -> Construct(t, Req(At(h, op.a).c, Nil, <<At(h, op.a)>>))
+    [] op.op = "Or" -> OrReq(t, At(h, op.a), At(h, op.b), FALSE, op.a, op.b)
+    [] op.op = "Ror" -> OrReq(t, At(h, op.a), At(h, op.b), TRUE, op.a, op.b)
+    [] op.op = "Pos" -> Construct(t, ReqI(At(h, op.a).c, Nil, <<At(h, op.a)>>, 0, <<op.a>>))
     [] op.op = "ToRenderArgs" ->
-         Construct(t, Req(IF op.cls < 0 THEN At(h, op.a).c ELSE op.cls, Nil, <<At(h, op.a)>>))
+         Construct(t, ReqI(IF op.cls < 0 THEN At(h, op.a).c ELSE op.cls, Nil, <<At(h, op.a)>>,
+                           0, <<op.a>>))
 
 (* ------------------------------------------------------------------------ *)
 (* Observable relations over a heap                                           *)
@@ -189,18 +223,32 @@ Eq(x, y) == x.k = y.k /\ x.c = y.c /\ x.v = y.v
 \* the hash on the render class)
 Pairs(h) == {p \in (1..Len(h)) \X (1..Len(h)) : p[1] < p[2]}
 EqPairs(h) == {p \in Pairs(h) : Eq(h[p[1]], h[p[2]])}
+(* UNHASHABLE field values (round 7).  The abstract value 2 stands for a legal field value  *)
+(* that is not hashable (a list, a dict).  It is a value like any other: construction, ==,  *)
+(* `in`, [], update, convert, | and + are defined by the very same operators above.  The   *)
+(* only difference the documentation makes ("like tuples, an instance is hashable if and   *)
+(* only if the field values / constituent namespaces are hashable"): hash() of such an     *)
+(* object raises TypeError, so the hash laws range over the hashable objects.              *)
+UVal == 2
+Vals == {0, 1, UVal}
+HashableVals(v) == \A f \in DOMAIN v : v[f] # UVal
+Hashable(x) ==
+  IF x.k = "ns" THEN HashableVals(x.v) ELSE \A k \in DOMAIN x.v : HashableVals(x.v[k])
+Unhashables(h) == {i \in 1..Len(h) : ~Hashable(h[i])}
+HashEqPairs(h) == {p \in EqPairs(h) : Hashable(h[p[1]])}
 ClassOnlyPairs(h) ==
-  {p \in Pairs(h) : h[p[1]].k = h[p[2]].k /\ h[p[1]].c # h[p[2]].c /\ h[p[1]].v = h[p[2]].v}
+  {p \in Pairs(h) : /\ h[p[1]].k = h[p[2]].k /\ h[p[1]].c # h[p[2]].c /\ h[p[1]].v = h[p[2]].v
+                    /\ Hashable(h[p[1]])}
 \* namespace in set
 Contains(ra, ns) == ra.v[ns.c] = ns.v
 \* per set: outcome of set[c] for c = 0..N ("ok" = the namespace in v[c])
 GetItems(t, x) == IF x.k = "ra" THEN [c \in 1..(NCls(t) + 1) |-> GetItem(t, x, c - 1)] ELSE <<>>
 
 WellFormed(t, x) ==
-  \/ /\ x.k = "ns" /\ x.c \in t.has /\ x.v \in [1..NF(x.c) -> {0, 1}] /\ x.s \in {0, 1}
+  \/ /\ x.k = "ns" /\ x.c \in t.has /\ x.v \in [1..NF(x.c) -> Vals] /\ x.s \in {0, 1}
   \/ /\ x.k = "ra" /\ x.c \in 0..NCls(t) /\ Len(x.v) = NCls(t)
      /\ \A k \in 1..NCls(t) :
-          IF k \in AMRO(t, x.c) THEN x.v[k] \in [1..NF(k) -> {0, 1}] ELSE x.v[k] = <<>>
+          IF k \in AMRO(t, x.c) THEN x.v[k] \in [1..NF(k) -> Vals] ELSE x.v[k] = <<>>
 
 (* ------------------------------------------------------------------------ *)
 (* Namespace-CLASS rules (docs: "Defining Fields", "Associating With a       *)
